@@ -58,8 +58,10 @@ func (er *ExchangeRate) Validate() error {
 
 // Convert performs the currency conversion defined by the exchange rate.
 func (er *ExchangeRate) Convert(amount num.Amount) num.Amount {
-	a := amount.Multiply(er.Amount)
 	z := er.To.Def().Zero()
+	// the product takes the amount's precision: raise it to the destination's
+	// first, or a source currency with fewer decimals loses the fraction
+	a := amount.RescaleUp(z.Exp()).Multiply(er.Amount)
 	return a.Rescale(z.Exp()) // ensure scale always matches destination currency
 }
 
